@@ -77,7 +77,7 @@ Definition rets_of (x : Z * Z * bytes * Z * bytes) : list rval :=
 
 (* the GENERATED function applied to the contract state *)
 Definition ral_source_full (s : ral_gstate) (gov : bool) (data : bytes) : option rres :=
-  RalVerify.ral_parseAndVerifyVAA keccak ecrecover (RB data) (RBool gov) (RZ (gs_cur_idx s)) (RB (gs_cur s))
+  RalVerify.ral_parseAndVerifyVAA_on keccak ecrecover (RB data) (RBool gov) (RZ (gs_cur_idx s)) (RB (gs_cur s))
     (RZ (gs_prev_idx s)) (RZ (gs_now s)) (RZ (gs_prev_exp s)) (RB (gs_prev s)).
 
 (* ... its return values *)
